@@ -284,6 +284,9 @@ type Outer struct {
 // a defined container type that is not itself @testonly
 type HL []*Helper
 
+// an ALIAS of a composite type that contains the @testonly type
+type HelperList = []Helper
+
 type Q struct{}
 
 // an unannotated METHOD that shares the name of the function Mock
@@ -356,6 +359,34 @@ const c03SrcE9 = `package d
 var list9 = HL{{X: 1}} // E9-DEFINED-CONTAINER
 `
 
+const c03SrcE10 = `package d
+
+var l10 HelperList // E10-ALIAS-OF-COMPOSITE
+`
+
+const c03SrcE11 = `package d
+
+var m11 map[string]HelperList // E11-NESTED-ALIAS-OF-COMPOSITE
+`
+
+// a user package WITHOUT @testonly items of its own: v1.go imports d, v2.go imports nothing and reaches d's items through v1.go
+const c03SrcV1 = `package v
+
+import "zzmod/d"
+
+func Open() *d.S { return nil }
+
+type Frames []d.Helper // V1-FRAMES
+`
+
+const c03SrcV2 = `package v
+
+func Use2() {
+	Open().Reset() // V2-MCALL
+	_ = Frames{{X: 1}} // V2-LIT
+}
+`
+
 const c03SrcE3 = `package d
 
 func Local() int {
@@ -388,7 +419,8 @@ func ZZC03Edge() {
 	holes := []nd.Hole{{"annH", annH}, {"annF", annF}, {"annW", annW}, {"annM", annM}}
 	files := []nd.File{{Pkg: "zzmod/d", Name: "d.go", Src: c03SrcED}, {Pkg: "zzmod/d", Name: "e1.go", Src: c03SrcE1}, {Pkg: "zzmod/d", Name: "e2.go", Src: c03SrcE2},
 		{Pkg: "zzmod/d", Name: "e2b.go", Src: c03SrcE2b}, {Pkg: "zzmod/d", Name: "e3.go", Src: c03SrcE3}, {Pkg: "zzmod/u", Name: "u.go", Src: c03SrcEU},
-		{Pkg: "zzmod/d", Name: "e4.go", Src: c03SrcE4}, {Pkg: "zzmod/d", Name: "e5.go", Src: c03SrcE5}, {Pkg: "zzmod/d", Name: "e6.go", Src: c03SrcE6}, {Pkg: "zzmod/d", Name: "e7.go", Src: c03SrcE7}, {Pkg: "zzmod/d", Name: "e8.go", Src: c03SrcE8}, {Pkg: "zzmod/d", Name: "e9.go", Src: c03SrcE9}}
+		{Pkg: "zzmod/d", Name: "e4.go", Src: c03SrcE4}, {Pkg: "zzmod/d", Name: "e5.go", Src: c03SrcE5}, {Pkg: "zzmod/d", Name: "e6.go", Src: c03SrcE6}, {Pkg: "zzmod/d", Name: "e7.go", Src: c03SrcE7}, {Pkg: "zzmod/d", Name: "e8.go", Src: c03SrcE8}, {Pkg: "zzmod/d", Name: "e9.go", Src: c03SrcE9},
+		{Pkg: "zzmod/d", Name: "e10.go", Src: c03SrcE10}, {Pkg: "zzmod/d", Name: "e11.go", Src: c03SrcE11}, {Pkg: "zzmod/v", Name: "v1.go", Src: c03SrcV1}, {Pkg: "zzmod/v", Name: "v2.go", Src: c03SrcV2}}
 	prog := nd.LoadProgram(files, holes)
 	cfg := config.Default()
 	rd := Analyze(prog, cfg, "zzmod/d", Facts{}, "tonl")
@@ -420,10 +452,18 @@ func ZZC03Edge() {
 		{"/zz/zzmod/d/e8.go", nd.LineOf(c03SrcE8, "E8-ARRAY-RESULT"), "TONL01", tH},
 		// elided elements under a defined container type: only the elided literal itself is a use of Helper
 		{"/zz/zzmod/d/e9.go", nd.LineOf(c03SrcE9, "E9-DEFINED-CONTAINER"), "TONL01", tH},
+		// through an alias of a composite type, also nested inside another composite type (C13)
+		{"/zz/zzmod/d/e10.go", nd.LineOf(c03SrcE10, "E10-ALIAS-OF-COMPOSITE"), "TONL01", tH},
+		{"/zz/zzmod/d/e11.go", nd.LineOf(c03SrcE11, "E11-NESTED-ALIAS-OF-COMPOSITE"), "TONL01", tH},
 		{f2, nd.LineOf(c03SrcE2, "E2-ELIDED-PTR"), "TONL01", tH},
 		{f2b, nd.LineOf(c03SrcE2b, "E2B-ELIDED-MAP"), "TONL01", tH},
 		// e3.go: the only Helper there is a function-local type: nothing
 	}, "C03 edge forms, declaring package")
+	rv := Analyze(prog, cfg, "zzmod/v", Facts{"zzmod/d": &rd.Ann}, "tonl")
+	CheckExact(rv.Diags, []Expect{
+		{"/zz/zzmod/v/v2.go", nd.LineOf(c03SrcV2, "V2-MCALL"), "TONL03", tM},
+		{"/zz/zzmod/v/v2.go", nd.LineOf(c03SrcV2, "V2-LIT"), "TONL01", tH},
+	}, "C03 edge forms, a file without imports in a package without @testonly items of its own")
 	CheckExact(ru.Diags, []Expect{
 		{fu, nd.LineOf(c03SrcEU, "U-DOT-CALL"), "TONL02", tF},
 		{fu, nd.LineOf(c03SrcEU, "U-DOT-MCALL"), "TONL03", tM},
